@@ -135,7 +135,11 @@ func propCross(t *rapid.T) {
 	a, p := servers(t)
 	op := gen.Sampled(crossOps).Draw(t, "op")
 	req := opgen.Draw(t, op, "r")
-	line := opclient.Line(req.Op, req.Args...)
+	// what the receiver of the operation holds before the call (see the op-server's rcvMode): a reused
+	// receiver is the rule in callers' loops, and the two lookups differ exactly in what they leave
+	// untouched in their destination
+	rcv := gen.Sampled([]int{0, 0, 1, 2, 3, 4, 4}).Draw(t, "receiver")
+	line := opclient.Line(fmt.Sprintf("%s@%d", req.Op, rcv), req.Args...)
 	edge := false
 	for _, i := range req.Secret {
 		for _, by := range req.Args[i] {
@@ -145,7 +149,7 @@ func propCross(t *rapid.T) {
 		}
 	}
 	r := both(t, a, p, line)
-	stat.Case("cross-build", []string{"op:" + op, "status:" + r.Status}, edge, []byte(line), func() any {
+	stat.Case("cross-build", []string{"op:" + op, "status:" + r.Status, fmt.Sprintf("receiver-before:%d", rcv)}, edge, []byte(line), func() any {
 		return map[string]any{"request": fmt.Sprintf("%.300s", line), "reply": fmt.Sprintf("%.200s", r.Key())}
 	})
 	if r.Status == "err" {
@@ -165,13 +169,16 @@ func TestC19_SingleNibble(t *testing.T) {
 	for nib := 0; nib < 64; nib++ {
 		for d := 1; d <= 15; d++ {
 			s := ref.B32(new(big.Int).Lsh(big.NewInt(int64(d)), uint(4*nib)))
-			line := opclient.Line("basemult", s)
-			r := both(t, a, p, line)
 			want := ref.BaseMul(ref.Int(s)).Uncompressed()
-			if r.Status != "ok" || string(r.Results[0]) != string(want) {
-				t.Fatalf("basemult(%x) wrong in both builds", s)
+			// into a fresh receiver and into one that holds a point already
+			for _, op := range []string{"basemult", "basemult@1", "basemult@2"} {
+				line := opclient.Line(op, s)
+				r := both(t, a, p, line)
+				if r.Status != "ok" || string(r.Results[0]) != string(want) {
+					t.Fatalf("%s(%x) wrong in both builds", op, s)
+				}
+				stat.Case("single-nibble", []string{op}, true, []byte(line), func() any { return map[string]any{"request": line} })
 			}
-			stat.Case("single-nibble", []string{"basemult"}, true, []byte(line), func() any { return map[string]any{"request": line} })
 			n++
 		}
 	}
@@ -182,7 +189,7 @@ func TestC19_SingleNibble(t *testing.T) {
 				if half == 1 {
 					h.Mul(h, ref.Lambda)
 				}
-				line := opclient.Line("scalarmult", ref.B32(ref.Mod(h, ref.N)), pt)
+				line := opclient.Line([]string{"scalarmult", "scalarmult@1", "scalarmult@2"}[n%3], ref.B32(ref.Mod(h, ref.N)), pt)
 				both(t, a, p, line)
 				stat.Case("single-nibble", []string{"scalarmult"}, true, []byte(line), func() any { return map[string]any{"request": fmt.Sprintf("%.160s", line)} })
 				n++
